@@ -46,7 +46,7 @@ def gen(rng):
         a.insert(rng.randint(0, len(a)), ('lit', lit))
     # a large ranged repetition (compiled through factored helper rules): `"c" x~n..m` as one more alternative of start
     big = None
-    if rng.random() < 0.2:
+    if rng.random() < 0.1:
         n_ = rng.randint(0, 12); span = rng.choice([50, 64, 75, 100, 51, 60, 7, 49])
         big = (rng.choice(['a', 'ab', '+']), n_, n_ + span - 1)
         rules['start'].append([('lit', 'c'), ('rep',) + big])
